@@ -171,7 +171,7 @@ func c02DumpValue(v value.Value) string {
 }
 
 // c02DumpOn: the AST the real parser returns WITH the optimizer, as a Coq term; reason != "": not comparable
-func c02DumpOn(text string, names []string) (term string, reason string) {
+func c02DumpOn(text string, names []string) (term string, reason string, astText string) {
 	c02DumpSpy.clos = map[uintptr]string{}
 	c02DumpSpy.keep = nil
 	c01DumpConstExt = c02DumpValue
@@ -188,9 +188,10 @@ func c02DumpOn(text string, names []string) (term string, reason string) {
 	}()
 	ast, err := c02FgDump.CreateAst(text, c02FgDump.Identifier().AddArgs(names, nil))
 	if err != nil {
-		return "", "parse error with the optimizer"
+		return "", "parse error with the optimizer", ""
 	}
-	return c01DumpAst(ast), ""
+	astText = ast.String()
+	return c01DumpAst(ast), "", astText
 }
 
 var c02TieReasons = []string{
@@ -562,7 +563,12 @@ func (r *c02State) runCase(p *pgProgram, id int) {
 	// the real optimized AST for the node-by-node tie with the optimizer model
 	realTerm := "(RNotComparable 0)"
 	if perr == nil {
-		onTerm, reason := c02DumpOn(text, p.ArgNames)
+		onTerm, reason, dumpText := c02DumpOn(text, p.ArgNames)
+		if dumpText != "" && dumpText != on.astText {
+			// the spied generator is configured like the observed one: its optimized AST prints the same
+			reason = "panic in the parser"
+			sum.Count("ast_tie_dump", "SANITY: the spied generator instance returned a different optimized AST than the observed one")
+		}
 		if reason == "" {
 			realTerm = "(RAst " + onTerm + ")"
 			sum.Count("ast_tie_dump", "real optimized AST dumped as a Coq term")
